@@ -348,7 +348,8 @@ PROPS = {
               "epsilon of the line through its surviving neighbours. StripDuplicates, StripNearEqual, TranslatePath, Length, "
               "GetBounds, Ellipse against their defining equations. Non-trivial = input of >= 4 points from which some but "
               "not all vertices are removed"
-              " Routes: TranslatePath is also checked in its Paths64 and PathD forms"),
+              " Routes: TranslatePath is also checked in its Paths64 and PathD forms"
+              " TrimCollinear, SimplifyPath and RamerDouglasPeucker are reached per case through the Path64 function, the PathD overload (same integer-valued input; TrimCollinear with precision 0..3) or the Paths64 wrapper (SimplifyPaths, RamerDouglasPeucker(Paths64)); 1% of the cases are combs of 20-120 teeth, 3% are paths with vertices at exact integer distances 0..3 from a base line with integer epsilon."),
         assumptions=["SimplifyPath's no-removable-vertex clause is judged on inputs of >= 4 points (KF-C20-b)",
                      "StripNearEqual cases where a pair distance equals the threshold to 1e-9 relative are skipped"],
         technique="property-based testing (rapidcheck): contract predicates and defining equations on generated degenerate paths",
